@@ -61,9 +61,9 @@ func fieldAtom(v ssa.Value) (field, c string, eq bool, ok bool) {
 
 // loopPathResult is what one iteration of the attribute loop does under one assignment of field values.
 type loopPathResult struct {
-	Appends     int
-	PrefixFrom  []string // for each append: field the first string field of the appended struct was loaded from
-	Undecided   string
+	Appends    int
+	PrefixFrom []string // for each append: field the first string field of the appended struct was loaded from
+	Undecided  string
 }
 
 // simulateAttrLoop walks one iteration of the loop over the []xml.Attr parameter of fn under the
@@ -446,10 +446,19 @@ func checkC09(w *World) {
 			}
 		})
 		w.check(P, "R09.5", "xml.Decoder.CharsetReader", rx.Pos(), ok, csDetail)
+		direct := false
+		allInstrs(rx, func(in ssa.Instruction) {
+			if c, isCall := in.(*ssa.Call); isCall && staticCallee(c) != nil && funcFullName(staticCallee(c)) == "encoding/xml.NewDecoder" {
+				if c.Call.Args[0] == ssa.Value(rx.Params[0]) {
+					direct = true
+				}
+			}
+		})
+		w.check(P, "R09.5", "xml.NewDecoder reads the caller's bytes", rx.Pos(), direct, fmt.Sprintf("the decoder is given the caller's reader itself: %v (a transcoding layer in front of it runs before the declared encoding is known and corrupts non-UTF-8 documents or hides invalid bytes)", direct))
 	}
-	w.floor(P, "R09.5", 1)
+	w.floor(P, "R09.5", 2)
 	// namespace nodes belong to their element: ownership rules of the store
-	w.include(P, "C10", "R10.5")
+	w.include(P, "C10", "R10.5", "R10.8")
 }
 
 // replayOrder: the decoder call is guarded by both pending lists being drained.
